@@ -126,7 +126,8 @@ def summary(a):
 def norm_path(text: str) -> str:
     t = re.sub(r"\s+", "", text)
     t = re.sub(r"\[\"([A-Za-z_][A-Za-z0-9_-]*)\"\]|\['([A-Za-z_][A-Za-z0-9_-]*)'\]", lambda m: "." + (m.group(1) or m.group(2)), t)
-    return t.replace('"', "'")
+    # (a root written ['x'] is the variable x)
+    return t.replace('"', "'").lstrip(".")
 
 
 def span_faults(a, sources: dict) -> list:
@@ -234,10 +235,15 @@ def judge(rec, opts):
         except Exception:  # noqa: BLE001
             pass        # what ran before the error still ran
         known_vars = set(a.variables)
-        missed = sorted(n for n in LOOKUPS if n not in known_vars)
+        # a root written in brackets ({{ [x] }}) names the variable by the value of another one: such names
+        # cannot be known statically (assumption); only names that stand in some template's text are judged then
+        computed = any(isinstance(v.segments[0], list) for vs in a.variables.values() for v in vs)
+        written = lambda n: (not computed) or (n != "" and any(n in src for src in templates.values()))  # noqa: E731
+        looked = {str(n) for n in LOOKUPS}          # ({{ [1] }} asks the namespace for the key 1)
+        missed = sorted(n for n in looked if n not in known_vars and written(n))
         if missed:
             out.append((f"variable-not-reported:{where}", {"templates": templates, "looked_up": missed, "reported": sorted(known_vars), "mode": mode}))
-        notglobal = sorted(n for n in LOOKUPS if n in known_vars and n not in a.globals and n not in a.locals)
+        notglobal = sorted(n for n in looked if n in known_vars and n not in a.globals and n not in a.locals)
         if notglobal:
             out.append((f"global-not-reported:{where}", {"templates": templates, "looked_up": notglobal, "globals": sorted(a.globals),
                                                           "locals": sorted(a.locals), "mode": mode}))
@@ -299,9 +305,35 @@ MODEL_FOCUSES = [("MC_Scopes", "scopes-g", {}, 2, 3), ("MC_Flow", "flow-g", {}, 
                  ("MC_Exprs", "exprs-g", {}, 1, 1), ("MC_Loops", "loops-g", {"Variant": '"single"'}, 1, 1), ("MC_Static", "static-g", {}, 3, 3)]
 
 
+def _enc(v):
+    if v is None:
+        return {"t": "nil"}
+    if isinstance(v, bool):
+        return {"t": "bool", "b": v}
+    if isinstance(v, int):
+        return {"t": "int", "n": v}
+    if isinstance(v, str):
+        return {"t": "str", "v": v, "safe": False}
+    if isinstance(v, list):
+        return {"t": "arr", "v": [_enc(x) for x in v]}
+    return {"t": "hash", "h": [[k, _enc(x)] for k, x in v.items()]}
+
+
+_SRC_CFG = {"undef": "default", "depthlimit": 30, "autoescape": False, "trim": "+", "suppress": True, "shopify": False}
+
+
+def _judge_src(rec, opts):
+    """Enumerated source text (MC_Strings): whatever parses is analysed and rendered, the run must stay inside the report."""
+    from .c12 import RT_DATA
+    rec2 = {"focus": rec["focus"], "main": "main", "templates": [["main", rec["src"]]], "cfg": _SRC_CFG,
+            "data": [[[k, _enc(v)] for k, v in RT_DATA.items()], [], [], []]}
+    return judge(rec2, opts)
+
+
 def check(tier: str) -> int:
     chk = Check("C11", tier)
     chk.assumptions += ["partials and parents are named by string literals (a computed name cannot be known statically)",
+                        "a variable whose root is computed ({{ [x] }}) is reported as a path; the name it resolves to at run time is not judged",
                         "variables a filter reads on its own account (translations, locale ...) are configuration, not template variables",
                         "TLC, Json/IOUtils modules, CPython"]
     for module, name, consts, q, t in FOCUSES:
@@ -311,6 +343,19 @@ def check(tier: str) -> int:
             continue
         try:
             gen.replay_file(chk, r.workdir / "out.ndjson", "harness.c11", "judge")
+        finally:
+            r.cleanup()
+    # enumerated source text: expression symbols inside wrappers, markup symbols bare
+    from . import tracecheck as tc
+    from .c12 import RT_WRAPPERS
+    plans2 = [(f"an-{w}", "expr-rt", 4 if tier == "thorough" else 3, pre, post) for w, pre, post in RT_WRAPPERS] + \
+             [("an-markup", "markup-small", 5 if tier == "thorough" else 4, "", "")]
+    for focus, alpha, n, pre, post in plans2:
+        r = tc.enumerate_sources(chk, focus, alpha, n, pre, post)
+        if r is None:
+            continue
+        try:
+            gen.replay_file(chk, r.workdir / "out.ndjson", "harness.c11", "_judge_src")
         finally:
             r.cleanup()
     for module, name, consts, q, t in MODEL_FOCUSES:
@@ -329,7 +374,11 @@ def replay_file(path: str) -> int:
     import json
     d = json.load(open(path))
     rec = d["record"]["record"] if "record" in d["record"] else d["record"]
-    res = judge_globals(rec, {}) if "looked_up" in rec else judge(rec, {})
+    if "src" in rec and "templates" not in rec:
+        res = _judge_src(rec, {})
+        rec = dict(rec, templates=[["main", rec["src"]]])
+    else:
+        res = judge_globals(rec, {}) if "looked_up" in rec else judge(rec, {})
     print(rec["templates"])
     for sig, det in res:
         print("FAILS:", sig, {k: v for k, v in det.items() if k != "templates"})
